@@ -113,3 +113,24 @@ Theorem C04_wipe_without_truncation_refuted :
   exists old k h, (forall h', reader_open (FFile old) <> OpenOk h') /\
                   reader_open (FFile (overwrite old wipe_image k)) = OpenOk h.
 Proof. exact wipe_without_truncation_refuted. Qed.
+
+(* clause (a) over the standard view semantics of release/acquire (Shm/MachineGenSys.v): [ts] contains
+   TCrash and TRestart at any access, any number of times; every record any client obtains in any such
+   execution is the empty initial record or one completed publication, and a given client's records
+   follow publication order *)
+From CB Require Import MachineGen MachineGenSys SeqlockMono.
+Open Scope Z_scope.
+
+Theorem C04_complete_records_across_deaths_standard_semantics :
+  forall {RF : RecFun} c ts, safe_cfg c = true -> Forall real_token ts ->
+  (Z.of_nat (gm_nrec (fst (std_run c ts))) < 32767)%Z ->
+  forall j ret rec, In (ORet j ret rec) (snd (std_run c ts)) -> ret <> RetErr ->
+    rec = repeat 0%Z (c_cells c) \/ published c (w_log (gm_w (fst (std_run c ts)))) rec.
+Proof. intros RF. exact C02_RA_standard_semantics. Qed.
+
+Example C04_standard_example :   (* death in the middle of an update, restart, publication: the attached client catches up *)
+  let ts := repeat TW 11 ++ [TNewReader] ++ repeat (TR 0 None) 11 ++ repeat TW 6 ++ [TCrash] ++
+            repeat (TR 0 None) 2 ++ [TRestart] ++ repeat (TR 0 None) 2 ++ repeat TW 11 ++ repeat (TR 0 None) 11 in
+  filter (fun x => match x with ORet _ _ _ => true | _ => false end) (snd (std_run fixed_cfg ts)) =
+    [ORet 0 RetFresh (rec_of 7 1); ORet 0 RetCache (rec_of 7 1); ORet 0 RetCache (rec_of 7 1); ORet 0 RetFresh (rec_of 7 3)].
+Proof. vm_compute. reflexivity. Qed.
